@@ -525,7 +525,13 @@ impl<C: ContentAddrStore> SealedState<C> {
             .keys()
             .map(|k| self.0.stakes.votes(my_epoch, *k))
             .sum();
-        if total_votes > present_votes / 2 * 3 {
+        // strictly more than two thirds of the voting power must have signed:
+        // 3 * present > 2 * total, rearranged so that nothing can overflow
+        let absent_votes = total_votes.saturating_sub(present_votes);
+        let enough_votes = absent_votes
+            .checked_mul(2)
+            .map_or(false, |twice_absent| present_votes > twice_absent);
+        if enough_votes {
             Some(ConfirmedState {
                 state: self.clone(),
                 cproof,
